@@ -7,14 +7,14 @@ CONSTANTS
  Dev = {"badevent", "status", "readerr", "partial", "dedup"}
  TrimOn = "match"
  Defect = "none"
- MaxFeeds = 2
+ MaxFeeds = 1
  MaxDials = 2
- MaxTime = 2
+ MaxTime = 8
  MaxSubs = 1
- FeedSet <- FramesMixed
- DialSet <- DialOK
- CloseSet <- CloseSoft
- AllowCancel = FALSE
+ FeedSet <- FramesLife
+ DialSet <- DialAll
+ CloseSet <- CloseAll
+ AllowCancel = TRUE
  Spe = 4
  Gen <- Gen0
  AKinds <- AllOK
